@@ -328,7 +328,7 @@ def run_batch(check, tier, seed, nproc=None, quiet=False):
             new_violations.append((key, r))
 
         replay_paths = []
-        for key, r in new_violations[:4]:
+        for key, r in new_violations[:6]:
             if "tape" not in r:
                 continue
             try:
